@@ -172,8 +172,11 @@ def stratified(rng, sp, n):
     leaves the rare classes - trailing '..' of a child directory, bad escapes - out of some runs)."""
     by = {}
     for item in sp:
-        by.setdefault(item[1], []).append(item)
-    per = max(2, n // max(1, len(by)))
+        # (class, top-level directory of the addressed resource): every spelling class meets protected and
+        # unprotected resources in every run
+        top = (item[2] or "/").split("/")[1] if item[2] else "-"
+        by.setdefault((item[1], top), []).append(item)
+    per = max(1, n // max(1, len(by)))
     out = []
     for cls in sorted(by):
         items = by[cls]
@@ -229,6 +232,14 @@ def judge(ctx, meta, rules, rname, via, path, cls, target, client, fp, stream, l
                 ctx.violation(f"wrong-refusal-code:expected={pol[1]}:got={status}", f"refusal {status}, policy says {pol[1]}", wit)
     elif target is not None and cls == "canonical" and status == 20 and not served:
         ctx.anomaly("20 without identifiable sentinel")
+    if target is not None and verdict == "ok":
+        # whatever the spelling, a request whose canonical location is covered by a rule that refuses this
+        # client is answered 60 / 61 - not 51, 59 or anything else that shows the rule was not applied
+        pol = policy(rules, target, fp)
+        if pol[0] != "admit" and status != pol[1]:
+            verdict = "refusal-missing"
+            ctx.violation(f"refusal-missing:spelling={cls}:expected={pol[1]}:got={status}",
+                          f"the first rule covering {target} refuses this client with {pol[1]}, the answer was {status}", wit)
     ctx.count("outcome", f"{status}:{verdict}")
     ctx.case((rname, via, cls, client, status, verdict), True,
              sample={"rule_set": rname, "via": via, "path": path[:80], "spelling": cls, "client": client, "status": status, "verdict": verdict})
@@ -290,7 +301,7 @@ def run(ctx):
                     if ctx.quick() and not listing and via == "object":
                         continue
                     cap, sc, cac = capture(ctx, meta, rules, via, base, listing)
-                    todo = sp if not ctx.quick() else stratified(rng, sp, 170)
+                    todo = sp if not ctx.quick() else stratified(rng, sp, 260)
                     for path, cls, target in todo:
                         for cname, ident in (clients if not ctx.quick() else [clients[0], clients[1], rng.choice(clients[2:])]):
                             loop = new_loop()
